@@ -59,6 +59,9 @@ fn huffman_decompress<'d, 's, 'x>(input: &[u8], buffer: &'x mut BufferRef<'d, 's
         (*final(buffer)).cap() == (*old(buffer)).cap(),
         r.is_ok() ==> (*final(buffer)).init().len() >= (*old(buffer)).init().len()
             && (*final(buffer)).init().subrange(0, (*old(buffer)).init().len() as int) == (*old(buffer)).init(),
+        // C07 (unit huff, lemma_roundtrip): what the compressor produced for x decodes to x whenever there is room for it
+        forall|x: Seq<u8>| input@ == #[trigger] huff_c(x) && (*old(buffer)).init().len() + x.len() <= (*old(buffer)).cap()
+            ==> r.is_ok() && (*final(buffer)).init() == (*old(buffer)).init() + x,
 { unimplemented!() }
 
 impl<'a> Packet<'a> {
@@ -74,6 +77,16 @@ impl<'a> Packet<'a> {
             ph_flags(packet@[0]) & PACKETFLAG_COMPRESSION != 0,
         ensures
             r.is_ok() ==> 3 <= r.unwrap()@.len() <= (*old(buffer)).cap(),
+            // same clause as decompress_impl (the nested view starts empty and has the whole capacity)
+            forall|x: Seq<u8>| packet@.subrange(3, packet@.len() as int) == #[trigger] huff_c(x) && x.len() <= 1397 ==> r.is_ok() && ({
+                let o = r.unwrap()@;
+                &&& o.len() == 3 + x.len()
+                &&& o.subrange(3, o.len() as int) == x
+                &&& ph_flags(o[0]) == ph_flags(packet@[0]) & !PACKETFLAG_COMPRESSION
+                &&& ph_ack(o[0], o[1]) == ph_ack(packet@[0], packet@[1])
+                &&& o[2] == packet@[2]
+                &&& ph_canonical(o[0])
+            }),
     { unimplemented!() }
 }
 
@@ -183,10 +196,10 @@ fn vx_roundtrip_control<'d, 's, 'e, 't, W: Warn<Warning>>(
     }
 }
 
-// ---- composition for chunk packets (C05 / C06): written by ConnectedPacket::write_impl, read back with the matching token hint.
-//      For the UNCOMPRESSED output form everything is checked against the two contracts: same ack, token, resend flag, chunk count,
-//      payload bytes, and no warning (except the documented ChunksNoChunks for an empty packet without resend request).
-//      When the writer chose Huffman compression the contracts say nothing about the bytes (that path rests on the C07 contract).
+// ---- composition for chunk packets (C05 / C06): written by ConnectedPacket::write_impl, read back with the matching token hint:
+//      same ack, token, resend flag, chunk count and payload bytes, and no warning (except the documented ChunksNoChunks for an empty
+//      packet without resend request) -- for BOTH output forms of the writer.  Checked against the two contracts only; for the
+//      compressed form the contracts speak about huff_c (shared/huff_spec.rs), i.e. the round trip rests on unit huff's theorem.
 fn vx_roundtrip_chunks<'d, 's, 'e, 't, W: Warn<Warning>>(
     warn: &mut W,
     p: &ConnectedPacket<'d>,
@@ -202,43 +215,44 @@ fn vx_roundtrip_chunks<'d, 's, 'e, 't, W: Warn<Warning>>(
         p.type_->Chunks_2@.len() + (if p.token.is_some() { 4int } else { 0int }) <= 1397,
 {
     let ghost w0 = warn.count();
+    let ghost pl = p.type_->Chunks_2@;
+    let ghost full = if p.token.is_some() { pl + p.token.unwrap().0@ } else { pl };
     let w = p.write_impl(buffer);
     assert(w.is_ok());
     let bytes = w.unwrap();
     proof {
         assert(PACKETFLAG_CONTROL == 1u8 && PACKETFLAG_CONNLESS == 2u8 && PACKETFLAG_REQUEST_RESEND == 4u8 && PACKETFLAG_COMPRESSION == 8u8) by (compute_only);
+        assert(full.len() <= 1397);
+        if p.token.is_some() { assert(full.len() >= 4); }
     }
-    let compressed = bytes[0] & 0b1000_0000 != 0;   // PACKETFLAG_COMPRESSION in the packed header
-    proof {
-        let b = bytes@[0];
-        assert((b & 0b1000_0000 != 0) == (((b & 0b1111_0000) >> 4) & 8u8 != 0)) by (bit_vector);
-        assert(ph_flags(b) == (b & 0b1111_0000) >> 4);
-    }
-    if !compressed {
-        let hint = Some(p.token.is_some());
-        let r = Packet::read_impl(warn, bytes, hint, Some(scratch));
-        assert(r.is_ok());
-        match r.unwrap() {
-            Packet::Connless(_) => { assert(false); }
-            Packet::Connected(q) => {
-                assert(q.ack == p.ack);
-                assert(q.token.is_some() == p.token.is_some());
-                proof {
-                    let n = bytes@.len() as int;
-                    let pl = p.type_->Chunks_2@;
-                    if p.token.is_some() {
+    let hint = Some(p.token.is_some());
+    let r = Packet::read_impl(warn, bytes, hint, Some(scratch));
+    assert(r.is_ok());
+    match r.unwrap() {
+        Packet::Connless(_) => { assert(false); }
+        Packet::Connected(q) => {
+            assert(q.ack == p.ack);
+            assert(q.token.is_some() == p.token.is_some());
+            proof {
+                let n = bytes@.len() as int;
+                if p.token.is_some() {
+                    assert(full.subrange(full.len() - 4, full.len() as int) =~= p.token.unwrap().0@);
+                    assert(full.subrange(0, full.len() - 4) =~= pl);
+                    if ph_flags(bytes@[0]) & PACKETFLAG_COMPRESSION == 0 {
                         assert(bytes@.subrange(n - 4, n) =~= bytes@.subrange(3 + pl.len() as int, n));
-                        assert(q.token.unwrap().0@ =~= p.token.unwrap().0@);
                     }
+                    assert(q.token.unwrap().0@ =~= p.token.unwrap().0@);
+                } else {
+                    assert(full.subrange(0, full.len() as int) =~= pl);
                 }
-                match q.type_ {
-                    ConnectedPacketType::Control(_) => { assert(false); }
-                    ConnectedPacketType::Chunks(rr, num, payload) => {
-                        assert(rr == p.type_->Chunks_0);
-                        assert(num == p.type_->Chunks_1);
-                        assert(payload@ =~= p.type_->Chunks_2@);
-                        assert(num != 0 || rr ==> warn.count() == w0);
-                    }
+            }
+            match q.type_ {
+                ConnectedPacketType::Control(_) => { assert(false); }
+                ConnectedPacketType::Chunks(rr, num, payload) => {
+                    assert(rr == p.type_->Chunks_0);
+                    assert(num == p.type_->Chunks_1);
+                    assert(payload@ =~= pl);
+                    assert(num != 0 || rr ==> warn.count() == w0);
                 }
             }
         }
